@@ -18,7 +18,8 @@ def copy_n(n):
 BOUNDARY = "\u0000\u007f\u0080߿ࠀ퟿￿\U00010000\U0010ffff"
 TEXTS = ["A", "AB\n", "\n", "\n\n\n", "a\n\nb", "no final newline", "with final newline\n", "\r\n\r\n", BOUNDARY, BOUNDARY + "\n" + BOUNDARY,
          "\u0000", "\u0000\n\u0000", "한글 🙂 é ß\n둘째 줄\n", "x" * 3000 + "\n", "\n".join(str(i) for i in range(200)) + "\n",
-         "\U0010ffff" * 50, "퟿\n", "tab\there\n", "\u0085   \n"]
+         "\U0010ffff" * 50, "퟿\n", "tab\there\n", "\u0085   \n",
+         "é" * 40000 + "\n", "a" * 65535 + "é\n", "a" * 65534 + "🙂b\n", "🙂" * 20000, "한" * 30000 + "\n" + "x" * 70000]
 
 
 def gen_text(rng):
@@ -54,7 +55,16 @@ def run(prop, tier, seed):
     hist = Counter()
     # (program tag, program text, stdin text, expected stdout text)
     jobs = []
+    long_jobs = []
+    first_long = True
     for t in texts:
+        if len(t) > 5000:
+            # very long lines: a short fixed copy reads the whole line; the loop copy is expensive, one per quick run
+            long_jobs.append(("copy<", copy_n(2), t, t[:2]))
+            if first_long or not quick:
+                long_jobs.append(("cat", CAT, t, t))
+            first_long = False
+            continue
         if t:
             jobs.append(("cat", CAT, t, t))
         n = len(t)
@@ -64,7 +74,8 @@ def run(prop, tier, seed):
             exp = t[:k] + NAN_TEXT * max(0, k - n)
             jobs.append(("copy%s" % ("=" if k == n else "<" if k < n else ">"), copy_n(k), t, exp))
     if quick:
-        jobs = jobs[:90]
+        jobs = jobs[:80]
+    jobs += long_jobs
     # compiled executables: one per distinct program and level
     progs = sorted(set(p for _, p, _, _ in jobs))
     comp_jobs = [(p, lv) for p in progs for lv in (0, 1, 2)]
@@ -97,7 +108,7 @@ def run(prop, tier, seed):
         sb = stdin.encode("utf-8")
         out = {}
         for lv in (0, 1, 2):
-            cls, o, e = C.run_hyeong(["run", "-O%d" % lv, files[prog]], sb, timeout=20)
+            cls, o, e = C.run_hyeong(["run", "-O%d" % lv, files[prog]], sb, timeout=120)
             out["run-O%d" % lv] = (cls, C.split_run_stdout(o), e)
             exe = exes.get((prog, lv), "absent")
             if exe == "absent":
@@ -105,12 +116,12 @@ def run(prop, tier, seed):
             if exe is None:
                 out["compiled-%d" % lv] = ("rustc-failed", b"", b"")
             else:
-                out["compiled-%d" % lv] = C.run_exe(exe, sb, timeout=20)
+                out["compiled-%d" % lv] = C.run_exe(exe, sb, timeout=120)
         return out
     results = C.pmap(runall, jobs)
     # the model's byte-level prediction at level 0
     mlines = ["cli 0 200000 1 %s %s" % (",".join(str(b) for b in p.encode("utf-8")), ",".join(str(b) for b in s.encode("utf-8")) or "")
-              for _, p, s, _ in jobs]
+              if len(s) <= 5000 else "cli 0 1 u - " for _, p, s, _ in jobs]    # the extracted model is not run on the very long texts
     model = C.run_model(mlines)
     distinct = set()
     fails, corr = [], []
@@ -123,7 +134,9 @@ def run(prop, tier, seed):
             hist[cfg] += 1
             if cls != "exit0" or o != want or e != b"":
                 fails.append((tag, prog, stdin, cfg, cls, o, e, want))
-        if m.startswith("exit:0|"):
+        if len(stdin) > 5000:
+            pass
+        elif m.startswith("exit:0|"):
             mo = bytes(int(x) for x in m.split("|")[1][2:].split(".")) if m.split("|")[1][2:] else b""
             if mo != want:
                 corr.append((tag, stdin, m[:200]))
